@@ -106,7 +106,22 @@ structure Judged where
   unclassified : Bool := false     -- some failing response lies in no known class
   judged : Nat := 0
 
-def judge (history : List Spec.C11.Routed) (acc : Judged) (x : Option Spec.C11.Routed) (o : Obs) : Judged :=
+/-- finding C11-d (Props.C11SysCompose.NoForeignFlagClash, negated): some request of the history that is
+    routed to ANOTHER storage has an UNFLAGGED key with the same entry name as an opaque-origin key of
+    the receiver. The lock table is keyed by name only, so the receiver's site can be handed that
+    unflagged key, and re-keying by Origin value is skipped. -/
+def foreignFlagClash (rules : List Rule) (reqs : List CReq) (recv : CReq) : Bool :=
+  match route rules recv with
+  | none => false
+  | some x =>
+    reqs.any fun g =>
+      match route rules g with
+      | none => false
+      | some gc =>
+        gc.cache != x.cache &&
+        gc.keys.any fun kg => x.keys.any fun kx => nameOf kg == nameOf kx && !kg.opaqueOrigin && kx.opaqueOrigin
+
+def judge (history : List Spec.C11.Routed) (acc : Judged) (x : Option Spec.C11.Routed) (clash : Bool) (o : Obs) : Judged :=
   match x, o.echo with
   | some x, some e =>
     -- the response varies by Origin: it says so, or the origin is known to vary the echoed URL by Origin
@@ -114,13 +129,13 @@ def judge (history : List Spec.C11.Routed) (acc : Judged) (x : Option Spec.C11.R
     match Spec.C11Sys.mismatch x e varies with
     | none => { acc with judged := acc.judged + 1 }
     | some reason =>
-      let cs := Spec.C11Sys.classesOf history x e
+      let cs := Spec.C11Sys.classesOf history x e ++ (if clash ∧ reason == "origin-value" then ["C11-d"] else [])
       { bad := acc.bad ++ [reason], classes := (acc.classes ++ cs).eraseDups,
         unclassified := acc.unclassified || cs.isEmpty, judged := acc.judged + 1 }
   | _, _ => acc
 
-def zipJudge (history : List Spec.C11.Routed) : Judged → List (Option Spec.C11.Routed) → List Obs → Judged
-  | acc, x :: xs, o :: os => zipJudge history (judge history acc x o) xs os
+def zipJudge (history : List Spec.C11.Routed) : Judged → List (Option Spec.C11.Routed × Bool) → List Obs → Judged
+  | acc, (x, c) :: xs, o :: os => zipJudge history (judge history acc x c o) xs os
   | acc, _, _ => acc
 
 def hSysK : Handler := fun impl => do
@@ -137,7 +152,7 @@ def hSysK : Handler := fun impl => do
     match Proto.run (pImpl steps) impl with
     | .error _ => ("na", "-", false)
     | .ok obs =>
-      let j := zipJudge history {} routed obs
+      let j := zipJudge history {} (routed.zip (reqs.map (foreignFlagClash rules reqs))) obs
       if j.judged = 0 then ("na", "-", false)
       else if j.bad.isEmpty then ("ok", "-", false)
       else
@@ -157,6 +172,6 @@ def hSysK : Handler := fun impl => do
     (if crossServed then ":cross-served" else "")
   return { model := model, oracle := oracle, cls := cls, label := label }
 
-def handlers : List (String × Handler) := [("sysk", hSysK)]
+def handlers : List (String × Handler) := [("sysk", hSysK), ("kf.C11-d", hSysK)]
 
 end H.SysK
